@@ -495,7 +495,10 @@ def index_shape(ev, shape, items):
             else:
                 g = lambda x: NONE_S if isinstance(x, NoneV) else x.expr  # noqa: E731
                 a, b, c = g(it.start), g(it.stop), g(it.step)
-                if c == NONE_S or c == 1:
+                if n.is_number and all(q == NONE_S or q.is_number for q in (a, b, c)):
+                    pa, pb_, pc_ = (None if q == NONE_S else int(q) for q in (a, b, c))
+                    out.append(sp.Integer(len(range(*slice(pa, pb_, pc_).indices(int(n))))))
+                elif c == NONE_S or c == 1:
                     lo = sp.Integer(0) if a == NONE_S else a
                     hi = n if b == NONE_S else b
                     if _nonneg(lo) and _nonneg(hi):
@@ -791,7 +794,7 @@ def num_method(ev, x: Num, name, args, kwargs, fr, node):
     if name in ("conj", "conjugate"):
         return x.like(sp.conjugate(x.expr), unit=x.unit)
     if name == "round":
-        return x.like(F["Round"](x.expr), unit=x.unit)
+        return x.like(round_term(x.expr), unit=x.unit)
     if name == "copy":
         return x
     if name in ("min", "max"):
@@ -928,6 +931,13 @@ def nd_getitem(ev, x: NdArr, idx, fr, node):
 
 
 # ------------------------------------------------------------------------ external calls
+def _lazy(fn):
+    """floor/ceiling: evaluate only on numbers (sympy's symbolic evaluation of big arguments is very slow)."""
+    def g(x):
+        return fn(x) if x.is_number else fn(x, evaluate=False)
+    return g
+
+
 def _np_unary(fn):
     def h(ev, args, kwargs, fr, node):
         x = args[0]
@@ -954,6 +964,8 @@ def _minmax(fn):
                 x = args[0]
                 if x.shape is None or len(x.shape) == 0:
                     return x
+                if len(x.shape) == 1 and x.shape[0].is_number and int(x.shape[0]) <= 32 and x.axes[0] is not None:
+                    return Num(fn(*[x.expr.subs(x.axes[0], i) for i in range(int(x.shape[0]))], evaluate=False))
                 return Num(sp.Function("RMin" if fn is sp.Min else "RMax")(x.expr), kind="number")
             else:
                 vals = ev.iterate(args[0], fr, node)
@@ -964,7 +976,9 @@ def _minmax(fn):
             if not isinstance(v, Num):
                 ev.unsupported(f"min/max over {v!r}", node, fr)
             es.append(v.expr)
-        return Num(fn(*es))
+        if all(e.is_number for e in es):
+            return Num(fn(*es))
+        return Num(fn(*es, evaluate=False))
     return h
 
 
@@ -1497,11 +1511,17 @@ def h_abs(ev, args, kwargs, fr, node):
     return args[0].like(sp.Abs(args[0].expr), unit=args[0].unit)
 
 
+def round_term(e):
+    """round-to-nearest as a term: floor(x + 1/2) (ties-to-even is not modelled)."""
+    a = e + sp.Rational(1, 2)
+    return sp.floor(a) if a.is_number else sp.floor(a, evaluate=False)
+
+
 def h_round(ev, args, kwargs, fr, node):
     x = args[0]
     if isinstance(x, NdArr):
-        return x.map(lambda e: e.like(F["Round"](e.expr)))
-    return x.like(F["Round"](x.expr))
+        return x.map(lambda e: e.like(round_term(e.expr)))
+    return x.like(round_term(x.expr))
 
 
 def h_allclose(ev, args, kwargs, fr, node):
@@ -1592,8 +1612,8 @@ EXT = {
     "builtins.id": lambda ev, a, k, fr, n: Num(0), "builtins.hex": lambda ev, a, k, fr, n: StrV("0x0"),
     "builtins.round": h_round,
     "numpy.exp": _np_unary(sp.exp), "numpy.sqrt": _np_unary(sp.sqrt), "numpy.abs": _np_unary(sp.Abs),
-    "numpy.absolute": _np_unary(sp.Abs), "numpy.floor": _np_unary(sp.floor), "numpy.ceil": _np_unary(sp.ceiling),
-    "math.ceil": _np_unary(sp.ceiling), "math.floor": _np_unary(sp.floor), "math.sqrt": _np_unary(sp.sqrt),
+    "numpy.absolute": _np_unary(sp.Abs), "numpy.floor": _np_unary(_lazy(sp.floor)), "numpy.ceil": _np_unary(_lazy(sp.ceiling)),
+    "math.ceil": _np_unary(_lazy(sp.ceiling)), "math.floor": _np_unary(_lazy(sp.floor)), "math.sqrt": _np_unary(sp.sqrt),
     "numpy.conj": _np_unary(sp.conjugate), "numpy.conjugate": _np_unary(sp.conjugate),
     "numpy.real": _np_unary(sp.re), "numpy.imag": _np_unary(sp.im), "numpy.sin": _np_unary(sp.sin),
     "numpy.cos": _np_unary(sp.cos), "numpy.square": _np_unary(lambda x: x ** 2), "numpy.sign": _np_unary(sp.sign),
